@@ -21,7 +21,8 @@ from mc import ufo_build as B
 from mc.explore import Property, Result, digest, violation
 
 COORD_PALETTE = [0, 1, -1, 0.5, -0.5, 1.5, -1.5, 0.25, 0.75, -0.25, 16383.5, -16383]
-WIDTHS = [0, 500, 499.5, 500.5, 0.25, 1000.75, 123]
+# -0.25 and -0.5 round (halves up) to the valid advance 0
+WIDTHS = [0, 500, 499.5, 500.5, 0.25, 1000.75, 123, -0.25, -0.5]
 TOLS = [None, 0, 0.25, 0.5]
 SMALLBOX = [(300, 300, "line"), (310.5, 300, "line"), (310.5, 320, "line"), (300, 320, "line")]
 
@@ -166,7 +167,7 @@ class C01(Property):
         "coordinates are multiples of 1/4 within +-16384 and transform entries dyadic, so reference and "
         "implementation arithmetic are exact in binary64",
         "closed contours only (CFF closes every path); no all-off-curve quadratic contours; no "
-        "zero-length segments; widths >= 0",
+        "zero-length segments; widths whose rounded value is >= 0",
         "fontTools' CFF/CFF2 reader and charstring interpreter (getGlyphSet().draw) are trusted",
     ]
     trusted_base = ["fontTools TTFont reader + T2 charstring interpreter", "mc/outline_ref.py"]
